@@ -30,7 +30,9 @@ VARIABLE l
 Devs == {"DevAbstractIgnoresObjectHints"}
 DevCode(d) == "A"
 
-ObjHint(C, o) == C.ts.types[o].hint
+\* object-level hint of a type.  A type built with MergedObject is annotated through its members: the mirror lists
+\* their object-level hints (merged) and the type is as restrictive as all of them together.
+ObjHint(C, o) == IF C.ts.types[o].merged # <<>> THEN MergeSeq(C.ts.types[o].merged, Unit) ELSE C.ts.types[o].hint
 FieldHint(C, o, f) == C.ts.types[o].fields[f].hint
 HasField(C, ty, f) == ty \in DOMAIN C.ts.types /\ Kind(C, ty) \in {"OBJECT", "INTERFACE"} /\ f \in DOMAIN C.ts.types[ty].fields
 RECURSIVE NamedTy(_)
